@@ -21,7 +21,9 @@
      one record per annotation slot and per dataset slot after the final protect (model: reverse
         indices, spec: scans)
      then the verdicts of the live annotations after a JSON and after a CBOR round trip,
-     then per edit the verdicts of the live annotations (or (0) when loading failed). *)
+     then per edit: the text selections of the live annotations as
+     loaded (model: offsets as reported by offset_with_mode resolved against the new length; (0) =
+     refused); the verdicts of the live annotations (or (0) when loading failed). *)
 From Coq Require Import List ZArith NArith Bool Arith.
 Import ListNotations.
 From Stam Require Import Base.Sx Model.Offset Model.Utf8 Model.Store Model.StoreObs Spec.StoreSpec
@@ -112,10 +114,21 @@ Fixpoint zip_live (s : store) (hs : list nat) (obs : list sx) : list (nat * opti
       end
   end.
 
-Definition run_edit (H : text -> text) (txts : list text) (s0 s1 : store) (e : sx) : sx :=
+(* the text selections every live annotation has after loading against [txts'], as the model of
+   offset reporting and resolution predicts them; (0) = the loader refuses *)
+Definition sx_of_reresolved (s : store) (txts' : list text) : sx :=
+  match reresolve s (fun r => length (nth r txts' [])) with
+  | None => L [A 0]
+  | Some ll =>
+      L (map (fun l => L (map (fun x => L [match get_res s (fst x) with Some rs => of_nat (r_id rs) | None => A (-1) end;
+                                          of_nat (fst (snd x)); of_nat (snd (snd x))]) l)) ll)
+  end.
+
+Definition run_edit (H : text -> text) (txts : list text) (s0 s1 : store) (e : sx) : list sx :=
   let r := sx_nat (sx_nth 1 e) in
   let txts' := set_nth txts r (text_of_sx (sx_nth 2 e)) in
-  if Z.eqb (sx_Z (sx_nth 0 e)) 0 then
+  [triple (sx_of_reresolved s1 txts') (sx_of_reresolved s1 txts') 0;
+   if Z.eqb (sx_Z (sx_nth 0 e)) 0 then
     let m := live_only (validate_all H txts' s1) in
     let sp := live_only (map (fun h => demand_slot H s0 s1 h (demand_edited txts txts' s1) (ann_pieces txts' s1)) (slots s1)) in
     triple (sx_of_verdicts m) (sx_of_verdicts sp) 0
@@ -141,7 +154,7 @@ Definition run_edit (H : text -> text) (txts : list text) (s0 s1 : store) (e : s
                                         regrouped (odflt (ann_vstr s1 a KDEL)) (ann_pieces txts s1 a) (newps o)
                                     | _, _ => false
                                     end) z in
-    triple (sx_of_verdicts m) (sx_of_verdicts sp) (if known then 1 else 0).
+    triple (sx_of_verdicts m) (sx_of_verdicts sp) (if known then 1 else 0)].
 
 (* protect_text on [s0]: the protected store, and the two sub-cases outcome / verdicts *)
 Definition protect_case (H : text -> text) (txts : list text) (s0 : store) (mode : nat) : store * list sx :=
@@ -173,4 +186,4 @@ Definition run_C18 (x : sx) : sx :=
      ++ map (fun ok => if sx_bool ok
                        then triple (sx_of_verdicts (live_only verdicts)) (sx_of_verdicts (live_only demanded)) 0
                        else triple (L [A 0]) (L [A 0]) 0) [sx_nth 0 (sx_nth 4 x); sx_nth 1 (sx_nth 4 x)]
-     ++ map (run_edit H txts s0 s1) (sx_list (sx_nth 3 x))).
+     ++ flat_map (run_edit H txts s0 s1) (sx_list (sx_nth 3 x))).
